@@ -17,6 +17,7 @@ HANDLERS = {
     "kbd_py": ("harness.py.kbd_cmd", "run"),
     "mem_py": ("harness.py.mem_cmd", "run"),
     "il": ("harness.py.il_cmd", "run"),
+    "irq": ("harness.py.irq_cmd", "run"),
     "asm": ("harness.py.asm_cmd", "asm"),
     "asm_seq": ("harness.py.asm_cmd", "asm_seq"),
     "reasm": ("harness.py.asm_cmd", "reasm"),
